@@ -50,10 +50,121 @@ impl Ref {
     }
 }
 
-//# funcs=Counter::{new,start,restart,reset,update,pause,limit_reached,timeout_occurred,until_timeout}; bound=timeout 1..=2^20 s, limit 1..=4, 3 operations at non-decreasing clock readings, < 3 periods between readings; assume=timeout >= 1 s (0 makes update loop forever: configuration precondition); stubs=none (virtual clock hook H2)
+//# funcs=Counter::{restart,reset,update,pause,limit_reached,timeout_occurred,until_timeout}; bound=ONE operation at an arbitrary later clock reading from EVERY counter state satisfying the invariant (timeout 1..=2^20 s, limit 1..=4, count <= limit, start <= clock, a running counter updated less than 2 periods ago, < 3 periods until the operation); inductive: the ghost credit invariant is re-established, so histories of any length are covered; assume=timeout >= 1 s (0 makes update loop forever: configuration precondition); stubs=none (virtual clock hook H2)
+#[kani::proof]
+#[kani::unwind(8)]
+fn c17_q_counter_step() {
+    let t: u64 = kani::any();
+    let n: u32 = kani::any();
+    kani::assume(t >= 1 && t <= (1 << 20) && n >= 1 && n <= 4);
+    // ---- arbitrary valid state at clock reading `last`
+    let last: u64 = kani::any();
+    let start: u64 = kani::any();
+    kani::assume(last <= (1 << 30) && start <= last);
+    let count: u32 = kani::any();
+    kani::assume(count <= n);
+    let occurred: bool = kani::any();
+    let paused: bool = kani::any();
+    kani::assume(paused || last - start < 2 * t);
+    // ghost: running (unpaused) time since the last reset that no counted expiration has consumed yet.
+    // Invariant J: a running counter has not yet consumed the time since `start`.
+    let mut credit: u64 = kani::any();
+    kani::assume(credit <= (1 << 40));
+    kani::assume(paused || credit >= last - start);
+    let mut c = Counter::verif_from_parts(CounterParts {
+        start_time: Duration::from_secs(start),
+        timeout: Duration::from_secs(t),
+        max_count: n,
+        count,
+        occurred,
+        paused,
+    });
+    // ---- the clock advances (running time earns credit), then one operation
+    let dt: u64 = kani::any();
+    kani::assume(dt < 3 * t);
+    let now = last + dt;
+    verif::set_now(Duration::from_secs(now));
+    if !paused {
+        credit += dt;
+    }
+    // reference `update`: one count per whole period of RUNNING time, each consuming one timeout of credit
+    let (mut r_start, mut r_count, mut r_occ) = (start, count, occurred);
+    let mut consumed_ok = true;
+    if !paused {
+        let mut k = 0;
+        while k < 6 && now - r_start >= t {
+            r_start += t;
+            if r_count < n {
+                r_count += 1;
+                if credit < t {
+                    consumed_ok = false;
+                } else {
+                    credit -= t;
+                }
+            }
+            r_occ = true;
+            k += 1;
+        }
+    }
+    let op: u8 = kani::any();
+    kani::assume(op < 6);
+    let mut r_paused = paused;
+    let updates = op != 1 && op != 5;
+    match op {
+        0 => {
+            c.verif_restart();
+            r_start = now;
+            r_paused = false;
+            r_occ = false;
+        }
+        1 => {
+            c.verif_reset();
+            r_start = now;
+            r_paused = false;
+            r_occ = false;
+            r_count = 0;
+            credit = 0;
+        }
+        2 => {
+            c.pause();
+            r_paused = true;
+        }
+        3 => {
+            let got = c.limit_reached();
+            assert!(got == (r_count == n), "limit reached exactly when the count equals the limit");
+            kani::cover!(got && count < n, "limit reached by this update");
+        }
+        4 => {
+            let got = c.timeout_occurred();
+            assert!(got == r_occ, "timeout flag");
+        }
+        _ => {
+            let got = c.until_timeout();
+            let next = start + t;
+            let want = if next > now { next - now } else { 0 };
+            assert!(got == Duration::from_secs(want), "time to the next expiry");
+        }
+    }
+    let p = c.verif_parts();
+    if updates || op == 1 {
+        assert!(p.count == r_count && p.occurred == r_occ && p.paused == r_paused, "counter equals the reference");
+        assert!(p.start_time == Duration::from_secs(r_start));
+        assert!(consumed_ok, "every counted expiration consumed a full timeout of running time: paused time is never counted");
+        assert!(p.paused || credit >= now - r_start, "ghost invariant re-established (inductive step)");
+        assert!(p.paused || now - r_start < t || op == 1, "an updated running counter is less than one period old");
+    } else {
+        assert!(p.count == count && p.occurred == occurred && p.paused == paused && p.start_time == Duration::from_secs(start), "until_timeout changes nothing");
+    }
+    assert!(p.count <= n);
+    kani::cover!(op == 0 && r_count > count, "restart counts an expiry");
+    kani::cover!(op == 2 && paused, "pause of a paused counter");
+    kani::cover!(r_count == count + 2, "two periods at once");
+}
+
+//# funcs=Counter::{new,start,restart,reset,update,pause,limit_reached,timeout_occurred,until_timeout}; bound=3 operations in sequence from Counter::new (may be inconclusive: > 10 min); assume=timeout >= 1 s; stubs=none
 #[kani::proof]
 #[kani::unwind(11)]
-fn c17_q_counter_kernel() {
+fn c17_t_counter_kernel_3ops() {
     let t: u64 = kani::any();
     let n: u32 = kani::any();
     kani::assume(t >= 1 && t <= (1 << 20) && n >= 1 && n <= 4);
@@ -339,7 +450,7 @@ fn recv_nak_limit(with_entry: bool, progress: bool, at_limit: bool, concrete: bo
     forget(t);
     forget(ch);
 }
-//# funcs=RecvTransaction::send_pdu,send_naks,Counter::reset; bound=after EOF, one queued gap, new data since the last NAK: NAK sent, count reset; nak count/age symbolic; stubs=S1,S2,S3
+//# funcs=RecvTransaction::send_pdu,send_naks,Counter::reset; bound=after EOF, one queued gap, new data since the last NAK: NAK sent, count reset; nak count/age symbolic; stubs=S1,S2,S3; nocover=limit|no progress
 th!(c17_q_recv_nak_progress_resets, 8, {
     if kani::any() {
         recv_nak_limit(false, true, true, false)
@@ -347,7 +458,7 @@ th!(c17_q_recv_nak_progress_resets, 8, {
         recv_nak_limit(false, true, false, false)
     }
 });
-//# funcs=RecvTransaction::send_pdu,send_naks,Counter::restart; bound=no progress, count 1 of 2, timer not expired again (concrete counter): NAK sent, timer restarted with the count kept; stubs=S1,S2,S3
+//# funcs=RecvTransaction::send_pdu,send_naks,Counter::restart; bound=no progress, count 1 of 2, timer not expired again (concrete counter): NAK sent, timer restarted with the count kept; stubs=S1,S2,S3; nocover=limit|progress
 th!(c17_q_recv_nak_below_limit, 8, { recv_nak_limit(false, false, false, true) });
 //# funcs=RecvTransaction::send_pdu,send_naks,Counter::restart; bound=as above with symbolic count/age below the limit (the fault path that drops the transport permit is explored: slow); stubs=S1,S2,S3
 th!(c17_t_recv_nak_below_limit_symbolic, 8, { recv_nak_limit(false, false, false, false) });
